@@ -414,6 +414,12 @@ func (c *provCtx) load(u *ssa.UnOp, depth int) {
 // through calls (a call result depends on all its arguments), local cells,
 // free variables and, up to depth levels, parameters to their call sites.
 func (p *Prog) backSlice(v ssa.Value, depth int) map[ssa.Value]bool {
+	return p.backSliceOpt(v, depth, false)
+}
+
+// backSliceOpt: with stopAtClosures the slice does not enter closures (what a
+// callback captures is not what the value handed out depends on).
+func (p *Prog) backSliceOpt(v ssa.Value, depth int, stopAtClosures bool) map[ssa.Value]bool {
 	seen := map[ssa.Value]bool{}
 	var walk func(v ssa.Value, depth int)
 	walk = func(v ssa.Value, depth int) {
@@ -421,6 +427,9 @@ func (p *Prog) backSlice(v ssa.Value, depth int) map[ssa.Value]bool {
 			return
 		}
 		seen[v] = true
+		if _, isMC := v.(*ssa.MakeClosure); isMC && stopAtClosures {
+			return
+		}
 		switch x := v.(type) {
 		case *ssa.Parameter:
 			if depth > 0 {
